@@ -28,7 +28,7 @@ def model_checks(tier):
 
 
 def cases(tier, seed, info):
-    n = 1000 if tier == 'quick' else 30000
+    n = 1000 if tier == 'quick' else 100000
     out = [dict(seed=seed * 977 + j, start=j, n=50) for j in range(0, n, 50)]
     info['records'] = n
     return out
